@@ -111,6 +111,7 @@ type Conn struct {
 
 	rdl, wdl time.Time
 	wdlErr   error // fault: arming a (non-zero) write deadline fails with this error
+	wdlAll   bool  // ... and so does clearing it (a stream that refuses every deadline call)
 
 	chunker ChunkFunc
 
@@ -368,7 +369,7 @@ func (c *Conn) SetDeadline(t time.Time) error {
 	if c.closed {
 		return net.ErrClosed
 	}
-	if c.wdlErr != nil && !t.IsZero() {
+	if c.wdlErr != nil && (!t.IsZero() || c.wdlAll) {
 		c.rdl = t
 		c.pr.broadcast()
 		return c.wdlErr
@@ -398,6 +399,14 @@ func (c *Conn) FailWriteDeadlines(err error) {
 	c.pr.mu.Unlock()
 }
 
+// FailAllWriteDeadlineCalls makes every later SetWriteDeadline on this end fail with err, whether it arms or
+// clears (nothing is applied): a stream that refuses the call altogether.
+func (c *Conn) FailAllWriteDeadlineCalls(err error) {
+	c.pr.mu.Lock()
+	c.wdlErr, c.wdlAll = err, true
+	c.pr.mu.Unlock()
+}
+
 // SetWriteDeadline implements net.Conn.
 func (c *Conn) SetWriteDeadline(t time.Time) error {
 	c.pr.mu.Lock()
@@ -405,7 +414,7 @@ func (c *Conn) SetWriteDeadline(t time.Time) error {
 	if c.closed {
 		return net.ErrClosed
 	}
-	if c.wdlErr != nil && !t.IsZero() {
+	if c.wdlErr != nil && (!t.IsZero() || c.wdlAll) {
 		return c.wdlErr
 	}
 	c.wdl = t
